@@ -90,6 +90,11 @@ CHECKS = {
    text="The thinnest claim: pruning is shown to use the boundary-aware subtree helper, the two tree packages to be the same statements, and the three facts the list-entry argument rests on (append iff not all keys matched, mismatch resets and continues, input sorted by Path) to hold on every path. That the tree contains exactly the given leaves for all inputs is not decided.",
    note="Trusted: go/types, occheck rules. The pruning defects found were repaired (fix commit 2029c13).",
    ref="DESIGN.md §3 C18"),
+ "C19": dict(
+   technique="routing and provenance dataflow over the enumerated paths of the split/forward functions, copy-completeness of the split request against the struct's exported field list, outcome tables for the refusals, loop-key argument rule for poll and forward",
+   text="The per-target map is shown to be written only at the prefix target (original request) or at the iterated entry's own path target (fresh request, fresh slice, the entry itself appended); every exported list-level option is shown to be copied; the three refusals and the no-target refusal are shown to return errors without forwarding; polls and split requests are shown to go, in the handler's goroutine, to the loop's own key; the relay is shown to pass the received message unchanged.",
+   note="Trusted: go/types, occheck path enumeration (no inlining), the rule code. Not covered: the gNMI client library; the deprecated Path.Element of the prefix; errors of sendSubscriptionRequest are discarded by the code (unknown target silently skipped) — noted, not claimed.",
+   ref="DESIGN.md §3 C19"),
 }
 
 def main():
